@@ -11,7 +11,8 @@ from harness import sorted_monitors as sm
 PID = "C07"
 GEN_GROUPS = ["Sorted", "SortedZ", "Evse", "Battery"]
 TARGETS = ["coq/Props/C07.vo", "coq/Model/Sorted.vo"]
-CASES = {"quick": 320, "thorough": 6000}
+CASES = {"quick": 280, "thorough": 5500}
+SEQS = {"quick": 10, "thorough": 150}           # multi-call sequences on ONE algorithm object
 SIMS = {"quick": 24, "thorough": 400}
 SIM_CALLS = {"quick": 160, "thorough": 2500}
 CORR_HEADER = ("From Coq Require Import ZArith QArith List String.\n"
@@ -47,8 +48,8 @@ COMBOS = [(a, s, e, u, i) for a in ("greedy", "rr") for s in sc.SORTS for e in (
 CORPUS = os.path.join(core.ROOT, "corpus", "C07")
 
 
-def mk_case(scn, src="unit"):
-    impl = sc.run_impl(scn)
+def mk_case(scn, src="unit", impl=None):
+    impl = sc.run_impl(scn) if impl is None else impl
     tw = sc.Twin(scn)
     r = tw.run()
     return dict(input=scn, impl=impl, coq=sc.case_coq(scn, impl), ambiguous=bool(r["amb"]), amb_why=r["amb"],
@@ -100,7 +101,11 @@ def extra_streams(rng, tier):
                     cases.append(dict(input=dict(sim=d["sim"]), impl=dict(violation=v), coq=None, ambiguous=True,
                                       kind="corpus-sim", sig=f, nontrivial=True, sim_violation=v))
     cases += sm.sim_stream(rng, SIMS[tier], SIM_CALLS[tier], tier, mk_case)
-    return [("sim", CORR_HEADER, CHECK_FN, cases)]
+    seq = []
+    for k in range(SEQS[tier]):
+        for scn, impl, tag in sc.run_sequence(rng, tier):
+            seq.append(mk_case(scn, tag, impl=impl))
+    return [("sim", CORR_HEADER, CHECK_FN, cases), ("seq", CORR_HEADER, CHECK_FN, seq)]
 
 
 def monitor(case):
@@ -136,5 +141,5 @@ def search(rng, budget_s, broken):
 def replay(w):
     if "sim" in w:
         return sm.replay_sim(w["sim"])
-    scn = sc.scn_from_json(w["case"])
-    return sm.monitor_c07(scn, sc.run_impl(scn))
+    scn, impl = sc.replay_with_history(w["case"])
+    return sm.monitor_c07(scn, impl)
